@@ -434,6 +434,17 @@ def _leg_ctor(case, add, counters):
                     for as_np in (False, True):
                         apps.append(("Partial|bool-mask-does-not-fit", f"Partial(child {cs}, boolean mask of shape {ms} = {mask.astype(int).tolist()}, parent shape {ps})",
                                      lambda cs=cs, mask=mask, ps=ps, as_np=as_np: FB.Partial(FB.Exp(cs), mask if as_np else jnp.asarray(mask), ps)))
+    # Partial with integer indices outside the parent shape (NumPy raises IndexError; an index that selects nothing of x "does not fit")
+    for ps in [(3,), (2, 3), (3, 1)]:
+        n0 = ps[0]
+        for bad_i in (n0, n0 + 2, -n0 - 1):
+            apps.append(("Partial|index-out-of-range", f"Partial(idx {bad_i}, parent shape {ps})", lambda ps=ps, bad_i=bad_i: FB.Partial(FB.Exp(ps[1:]), bad_i, ps)))
+            for arr in ([0, bad_i], [bad_i], [bad_i, 0, 1][: max(1, n0)]):
+                for as_np in (False, True):
+                    apps.append(("Partial|index-out-of-range", f"Partial(idx array {arr}, parent shape {ps})",
+                                 lambda ps=ps, arr=arr, as_np=as_np: FB.Partial(FB.Exp((len(arr),) + ps[1:]), np.asarray(arr) if as_np else jnp.asarray(arr), ps)))
+            if len(ps) == 2:
+                apps.append(("Partial|index-out-of-range", f"Partial(idx (0, {ps[1] + 1}), parent shape {ps})", lambda ps=ps: FB.Partial(FB.Exp(()), (0, ps[1] + 1), ps)))
     apps.append(("TriangularAffine|non-square", "TriangularAffine(arr 2x3)", lambda: FB.TriangularAffine(0, jnp.ones((2, 3)))))
     apps.append(("Inverter|lower>=upper", "AutoregressiveBisectionInverter(lower=1, upper=1)",
                  lambda: __import__("flowjax.bisection_search", fromlist=["x"]).AutoregressiveBisectionInverter(lower=1.0, upper=1.0)))
